@@ -64,7 +64,7 @@ func c14RunHist(c *Ctx) {
 	c.Step("start form=%s set=%v", bm.Form, descSet(m))
 	h := m.Hash()
 	for i := 0; i < 60 && !c.Failed(); i++ {
-		op := mutateStep(c, bm, MutOpts{Light: true, NoClone: true, OnlyOps: []string{"AddRange", "RemoveRange", "Flip", "Add", "Remove", "CheckedRemove", "AddMany", "RunOptimize"}})
+		op := mutateStep(c, bm, MutOpts{Light: true, NoClone: true, OnlyOps: []string{"AddRange", "RemoveRange", "Flip", "Add", "Remove", "CheckedRemove", "AddMany", "RunOptimize", "TrimEnds"}})
 		if c.Failed() {
 			return
 		}
